@@ -22,12 +22,16 @@ HasToken(lines, tok) == \E e \in Elements(lines) : Lower(e) = tok
 \* a request's handshake-relevant headers
 \*   conn, upg : sequences of lines (<<>> = header absent)
 \*   ver : "absent" | "13" | "other"
-\*   key : "absent" | "present"
+\*   key : "absent" | "present" (an ordinary base64 nonce) | "odd" (a field
+\*         value with interior SP / HTAB / comma: still *a key*, and the
+\*         digest is over the whole field value -- RFC 6455 4.2.2 item 5.4
+\*         concatenates the header value as sent, it is not a list)
+\*   ver : "other" includes values that merely *start* with 13 ("13, 8")
 Good(req) ==
   /\ HasToken(req.conn, "upgrade")
   /\ HasToken(req.upg, "websocket")
   /\ req.ver = "13"
-  /\ req.key = "present"
+  /\ req.key \in {"present", "odd"}
 
 \* D is the RFC 6455 digest (uninterpreted here; the harness computes it with
 \* its own SHA-1 / base64)
